@@ -980,16 +980,37 @@ void tickit_renderbuffer_flush_to_term(TickitRenderBuffer *rb, TickitTerm *tt)
           {
             TickitStringPos start, end, limit;
             const char *text = tickit_string_get(cell->v.text.s);
+            int startcol = cell->v.text.offs;
+            int endcol   = startcol + cell->cols;
 
-            tickit_stringpos_limit_columns(&limit, cell->v.text.offs);
+            tickit_stringpos_limit_columns(&limit, startcol);
             tickit_utf8_count(text, &start, &limit);
 
-            limit.columns += cell->cols;
+            /* The run may begin inside a double-width character of which only
+             * the right half remains visible: step over the character and
+             * blank the column it leaves at the start of this run */
+            if(start.columns < startcol) {
+              tickit_stringpos_limit_graphemes(&limit, start.graphemes + 1);
+              tickit_utf8_countmore(text, &start, &limit);
+            }
+            int lead = start.columns - startcol;
+
+            /* Likewise it may end inside one: stop before the character and
+             * blank the column of it that belongs to this run */
             end = start;
-            tickit_utf8_countmore(text, &end, &limit);
+            if(start.columns < endcol) {
+              tickit_stringpos_limit_columns(&limit, endcol);
+              tickit_utf8_countmore(text, &end, &limit);
+            }
+            int trail = endcol - end.columns;
 
             tickit_term_setpen(tt, cell->pen);
-            tickit_term_printn(tt, text + start.bytes, end.bytes - start.bytes);
+            if(lead > 0)
+              tickit_term_erasech(tt, lead, TICKIT_YES);
+            if(end.bytes > start.bytes)
+              tickit_term_printn(tt, text + start.bytes, end.bytes - start.bytes);
+            if(trail > 0)
+              tickit_term_erasech(tt, trail, TICKIT_YES);
 
             phycol += cell->cols;
           }
